@@ -312,19 +312,25 @@ def analyse_sources(parser_src, lexer_src):
     return actions, sorted(set(other)), lexer_methods, sorted(res)
 
 
+I_ = r"[A-Za-z_]\w*"
+# the bodies as the Lean model of the effects mirrors them, written as patterns over the text with all white space
+# removed: local names, the choice between `if let` and a two-armed `match`, and a trailing `;` carry no meaning
 SCOPE_API = {
-    "push": "self.contexts.borrow_mut().push(ctx)",
-    "pop": "self.contexts.borrow_mut().pop()",
-    "set_entry": "if let Some(context) = self.contexts.borrow_mut().last_mut() { context.set_entry(name, value); }",
+    "push": [r"self\.contexts\.borrow_mut\(\)\.push\((%s)\);?" % I_],
+    "pop": [r"self\.contexts\.borrow_mut\(\)\.pop\(\);?"],
+    "set_entry": [
+        r"ifletSome\((?P<c>%s)\)=self\.contexts\.borrow_mut\(\)\.last_mut\(\)\{(?P=c)\.set_entry\((%s),(%s)\);?\}" % (I_, I_, I_),
+        r"matchself\.contexts\.borrow_mut\(\)\.last_mut\(\)\{Some\((?P<c>%s)\)=>\{?(?P=c)\.set_entry\((%s),(%s)\);?\}?,?(None|_)=>(\{\}|\(\)),?\}" % (I_, I_, I_),
+    ],
 }
 
 
 def scope_api_ok(scope_src):
     fns = rust_functions(mask_rust(scope_src))
     bad = []
-    for name, want in SCOPE_API.items():
-        got = " ".join(fns[name]["body"].split()) if name in fns else None
-        if got != want:
+    for name, wants in SCOPE_API.items():
+        got = "".join(fns[name]["body"].split()) if name in fns else None
+        if got is None or not any(re.fullmatch(w, got) for w in wants):
             bad.append(name)
     return bad
 
